@@ -45,6 +45,7 @@ def main(argv=None):
     a = p.parse_args(argv)
     from vmon import mon
     path = mon.assert_repo()
+    mon.LOG.owner = a.prop.upper()
     ctx = Ctx(a)
     mod = importlib.import_module('vmon.props.' + a.prop.lower())
     t0 = time.time()
